@@ -314,40 +314,48 @@ def _run(ctx):
         else:
             ctx.missing("C01.ring", "From<GenericPolyline> for GenericPolygon")
     # --- frame / routes -------------------------------------------------------------------------
-    ro = F.identity("reader::read_one_shape_as")
-    cands = [ro] if ro else []
     fs = F.inherent_method("reader::ShapeReader", "read_nth_shape_as")
     from .C14 import iterator_next
     fn = iterator_next(F)
-    callers = {}
+    framing = {}
     for label, g in (("sequential", fn), ("by index", fs[0] if fs else None)):
         if not g:
+            ctx.missing("C01.frame", "route: %s" % label)
             continue
-        for b, t in mir.calls(g):
-            r = t["fn"].get("resolved") if "fn" in t else None
-            d = mir.callee_decl(t)
-            if d and d.startswith("reader::") and "read" in d and r and r.get("has_body"):
-                callers[label] = r["def"]
-    ctx.ob("C01.frame", "one record reader for both routes", len(callers) == 2 and len(set(callers.values())) == 1,
-           "record reader used: %s" % callers, key="C01.frame|routes")
-    rr = F.identity(list(callers.values())[0]) if callers else None
-    if rr:
-        ps, _ = util.run_fn(F, rr)
-        good = False
-        desc = ""
+        # whether the record is read by a private helper or in place makes no difference: local functions are followed, the
+        # typed content reader is the (trait) call `ReadableShape::read_from`
+        try:
+            ps, _ = util.run_fn(F, g)
+        except absint.Unanalysable as e:
+            ctx.unanalysable("C01.frame", label, str(e))
+            continue
+        good, n_ok, desc = True, 0, set()
         for p in ps:
-            if not is_agg(p.ret, None, 'Ok'):
+            item = agg_field(p.ret, '0') if is_agg(p.ret, None, 'Some') else None
+            if p.status != 'return' or not is_agg(item, None, 'Ok'):
                 continue
-            ios = p.io()
-            calls = [e for e in p.eff if e[0] == 'call' and e[1] == 'record::ReadableShape::read_from']
-            if len(ios) == 2 and len(calls) == 1 and all(e[3]['endian'] == 'BigEndian' and e[3]['ty'] == 'i32' for e in ios):
-                arg = calls[0][3][1]
-                good = arg == ('bin', 'Mul', ios[1][-1], ('int', 2), 'i32')
-                desc = "content reader receives %s" % absint.term_str(arg)
-        ctx.ob("C01.frame", "record header then content", good, desc or "record reader shape not recognised", site=ctx.site_of(F, rr["def"]),
-               key="C01.frame|record-reader")
-    else:
-        ctx.missing("C01.frame", "record reader")
+            n_ok += 1
+            effs = list(absint.flat_effects(p.eff))
+            calls = [k for k, e in enumerate(effs) if e[0] == 'call' and e[1] == 'record::ReadableShape::read_from']
+            if len(calls) != 1:
+                good = False
+                desc.add("%d calls of the typed content reader on an item path" % len(calls))
+                continue
+            k = calls[0]
+            rd = [e for e in effs[:k] if e[0] == 'io' and e[1] == 'read']
+            rd = rd[-2:]
+            arg = effs[k][3][1]
+            if len(rd) == 2 and all(e[3]['endian'] == 'BigEndian' and e[3]['ty'] == 'i32' for e in rd) and \
+                    arg == ('bin', 'Mul', rd[1][-1], ('int', 2), 'i32') and not [e for e in effs[k + 1:] if e[0] == 'io' and e[1] == 'read']:
+                desc.add("two BE i32 (number, length), then the content reader is handed 2*length bytes")
+            else:
+                good = False
+                desc.add("content reader receives %s after %s" % (absint.term_str(arg)[:60], [(e[3].get('ty'), e[3].get('endian')) for e in rd]))
+        framing[label] = good and n_ok >= 1
+        ctx.ob("C01.frame", "record header then content (%s)" % label, good and n_ok >= 1, "; ".join(sorted(desc)) or "no item path",
+               site=ctx.site_of(F, g["def"]), key="C01.frame|record-reader|%s" % label)
+    ctx.ob("C01.frame", "one framing for both routes", len(framing) == 2 and all(framing.values()),
+           "sequential iteration and random access frame a record the same way: %s" % framing, key="C01.frame|routes")
     for imp in F.trait_impls("record::ReadableShape"):
         f = F.fns.get(imp["methods"][0]["key"])
         ps, _ = util.run_fn(F, f, inline=lambda g, t: "read_shape_content" not in g["def"], summarise_pure=False)
